@@ -103,10 +103,10 @@ def run(chk):
     # when the code lengths differ by at most 5, raw again when not smaller; the remembered table forgotten after a
     # block stored raw -- carried over the blocks of the frame must write the literals section of every real block
     # inputs made for the table decisions: blocks of 128 KiB drawn from a skewed byte distribution that stays, is
-    # jittered, has two symbols swapped, gets a new symbol or is redrawn from block to block, so that the code-length
+    # jittered, has two symbols swapped, gets a new symbol or is redrawn from block to block (3 to 80 symbols), so that the code-length
     # difference to the remembered table falls below and above the threshold and new symbols rule the old table out
     def drift_input(nblocks):
-        k = rng.choice([3, 5, 8, 12, 17, 24])
+        k = rng.choice([3, 5, 8, 12, 17, 24, 40, 80, 80])
         pool = list(range(17 if (k <= 12 and rng.below(3) == 0) else 256))
         for i in range(len(pool) - 1, 0, -1):
             j = rng.below(i + 1)
@@ -136,7 +136,10 @@ def run(chk):
                 acc += w / tot
                 cum.append(acc)
             import bisect
-            out += bytes(syms[min(k - 1, bisect.bisect_left(cum, rng.below(1 << 24) / float(1 << 24)))] for _ in range(131072))
+            # a chunk of fresh bytes (they become literals) repeated to fill the block (the repetitions become matches):
+            # the executable model is slow on many Huffman-coded literals
+            chunk = bytes(syms[min(k - 1, bisect.bisect_left(cum, rng.below(1 << 24) / float(1 << 24)))] for _ in range(rng.range(12000, 26000)))
+            out += (chunk * 11)[:131072]
         return bytes(out), modes
     drift = [drift_input(rng.range(2, 4)) for _ in range(30 if thorough else 12)]
     dres = zh_par('codec', ['renc 1 %s 0' % hexs(d) for d, m in drift])
